@@ -2,7 +2,7 @@
 from props import helix_common as hc
 
 def run(ck):
-    ok = hc.standard(ck, "C12", "C12.v", ["HelixCommon.v", "C12Proofs.v"], "c12",
+    ok = hc.standard(ck, "C12", "C12.v", ["HelixCommon.v", "HelixLaws.v", "C12Proofs.v", "C11ErrProofs.v"], "c12",
                      "helices of both charges x pivot pairs x error matrices (full, rank-1, diagonal, zero): the returned error matrix "
                      "vs J E J^T with the central finite-difference Jacobian of change_pivot's own parameter map, symmetry, eigenvalues, "
                      "identity move, helices without error matrix, in object and array form (per-track matrices inside arrays). "
